@@ -51,6 +51,48 @@ def _isinstance_chain(fn: ast.AST, var: str) -> list[tuple[str, str]]:
     return out
 
 
+def _result_branches(tree: ast.AST, notes: list[str]) -> tuple[list[str], list[str]]:
+    """(classes tested by the isinstance chain over `result` inside the `for result in tick.result` loop of
+    `_process_step_result_tick`, in order; those whose branch puts the RUNNING invocation through admission again or
+    takes it out of `in_progress`: a call of `_add_or_enqueue_event`, an `EventAttempt(...)` built there, or
+    `in_progress.remove/pop/clear/append/insert`).  In the model no `Res` arm of `applyRes` touches `inProg` or the
+    retry record of the executing invocation (`applyRes_inProg`, `applyRes_retryRec`): a re-run stays in its slot."""
+    fn = next((n for n in ast.walk(tree) if isinstance(n, ast.FunctionDef) and n.name == "_process_step_result_tick"), None)
+    if fn is None:
+        notes.append("engine_shape: _process_step_result_tick not found")
+        return ["<unparsed>"], ["<unparsed>"]
+    loop = next((n for n in ast.walk(fn) if isinstance(n, ast.For) and isinstance(n.target, ast.Name) and n.target.id == "result"), None)
+    if loop is None:
+        notes.append("engine_shape: result loop of _process_step_result_tick not found")
+        return ["<unparsed>"], ["<unparsed>"]
+    order: list[str] = []
+    readmit: list[str] = []
+    node = next((s for s in loop.body if isinstance(s, ast.If)), None)
+    while isinstance(node, ast.If):
+        t = node.test
+        cls = "<?>"
+        if (isinstance(t, ast.Call) and isinstance(t.func, ast.Name) and t.func.id == "isinstance" and len(t.args) == 2
+                and isinstance(t.args[0], ast.Name) and t.args[0].id == "result" and isinstance(t.args[1], ast.Name)):
+            cls = t.args[1].id
+        order.append(cls)
+        hit = False
+        for st in node.body:
+            for c in ast.walk(st):
+                if not isinstance(c, ast.Call):
+                    continue
+                f = c.func
+                if isinstance(f, ast.Name) and f.id in ("_add_or_enqueue_event", "EventAttempt"):
+                    hit = True
+                if (isinstance(f, ast.Attribute) and f.attr in ("remove", "pop", "clear", "append", "insert", "extend")
+                        and isinstance(f.value, ast.Attribute) and f.value.attr == "in_progress"):
+                    hit = True
+        if hit:
+            readmit.append(cls)
+        nxt = node.orelse
+        node = nxt[0] if len(nxt) == 1 and isinstance(nxt[0], ast.If) else None
+    return order, readmit
+
+
 def generate(notes: list[str]) -> list[str]:
     ticks = _classes("types/ticks.py", notes)
     cmds = _classes("types/commands.py", notes)
@@ -61,8 +103,11 @@ def generate(notes: list[str]) -> list[str]:
     command_chain: list[tuple[str, str]] = [("<unparsed>", "<unparsed>")]
     idle_after = False
     unknown_tick_raises = False
+    result_order: list[str] = ["<unparsed>"]
+    result_readmit: list[str] = ["<unparsed>"]
     try:
         tree = ast.parse(open(repo_path(BASE + "control_loop.py")).read())
+        result_order, result_readmit = _result_branches(tree, notes)
         red = next((n for n in ast.walk(tree) if isinstance(n, ast.FunctionDef) and n.name == "_reduce_tick"), None)
         if red is None:
             notes.append("engine_shape: _reduce_tick not found")
@@ -94,5 +139,9 @@ def generate(notes: list[str]) -> list[str]:
         f"def commandDispatch : List String := {lst([a for a, _ in command_chain])}",
         f"def idleCheckScheduledAfterDispatch : Bool := {'true' if idle_after else 'false'}",
         f"def unknownTickRaises : Bool := {'true' if unknown_tick_raises else 'false'}",
+        "/-- the isinstance chain over `result` in `_process_step_result_tick`, in order -/",
+        f"def resultDispatch : List String := {lst(result_order)}",
+        "/-- result branches that re-admit the running invocation or take it out of `in_progress` themselves -/",
+        f"def resultBranchesReadmitting : List String := {lst(result_readmit)}",
         "end GenEngineShape",
     ]
